@@ -782,11 +782,12 @@ theorem replaceAround_undo (S : Schema) (doc doc' : Node) (f t gf gt : Nat) (sl 
 theorem gapFitsBack_of_applied (S : Schema) (doc doc' : Node) (f t gf gt : Nat) (sl : Slice)
     (ins : Nat) (b : Bool) (inv : Step)
     (hd : S.checkNode doc = true) (hn : fnorm doc.kids = true)
-    (hwf : sl.wf = true) (hins : (ins : Int) ≤ sl.size) (hg : f ≤ gf ∧ gf ≤ gt ∧ gt ≤ t)
+    (hwf : sl.wf = true) (hg : f ≤ gf ∧ gf ≤ gt ∧ gt ≤ t)
     (h1 : S.apply (.replaceAround f t gf gt sl ins b) doc = .ok doc')
     (hi : S.invert (.replaceAround f t gf gt sl ins b) doc = .ok inv)
     (hra : inv.gapCutAligned) :
     gapFitsBack S doc f t gf gt = true := by
+  have hins := C01.insert_le_of_apply S doc doc' f t gf gt sl ins b h1
   obtain ⟨gap, inserted, hgap, hgo1, hgo2, _, _⟩ := apply_replaceAround_parts S doc doc' f t gf gt sl ins b h1
   obtain ⟨_, htK, _⟩ := apply_replaceAround_toks S doc doc' f t gf gt sl ins b hwf hins hg h1
   simp only [Schema.invert] at hi
@@ -806,12 +807,13 @@ theorem gapFitsBack_of_applied (S : Schema) (doc doc' : Node) (f t gf gt : Nat) 
     `hst` — the structure checks of the inverse (only if the step carries the structure flag);
     `hj` — the guard of `replace_undo` for the slice with the gap inserted (`sidesCompatibleAround`);
     `ha`, `hra` — pair-alignment of the positions the inverse resolves in `doc'` and of the cut it makes in its own
-    slice (`Step.gapCutAligned`).  The gap may start and end anywhere: inside text nodes, between nodes whose
+    slice (`Step.gapCutAligned`).  `insert ≤ slice.size` is no hypothesis: `Slice.insert_at` refuses the step
+    otherwise (`C01.insert_le_of_apply`).  The gap may start and end anywhere: inside text nodes, between nodes whose
     neighbours join, at any depth of the old slice. -/
 theorem replaceAround_undo_aligned (S : Schema) (doc doc' : Node) (f t gf gt : Nat) (sl : Slice)
     (ins : Nat) (b : Bool) (inv : Step)
     (hd : S.checkNode doc = true) (hn : fnorm doc.kids = true) (hsn : fnorm sl.content = true)
-    (hwf : sl.wf = true) (hins : (ins : Int) ≤ sl.size) (hg : f ≤ gf ∧ gf ≤ gt ∧ gt ≤ t)
+    (hwf : sl.wf = true) (hg : f ≤ gf ∧ gf ≤ gt ∧ gt ≤ t)
     (h1 : S.apply (.replaceAround f t gf gt sl ins b) doc = .ok doc')
     (hi : S.invert (.replaceAround f t gf gt sl ins b) doc = .ok inv)
     (hst : b = true → contentBetween doc' f (f + ins) = some false ∧
@@ -822,8 +824,9 @@ theorem replaceAround_undo_aligned (S : Schema) (doc doc' : Node) (f t gf gt : N
       alignedAt doc'.kids (f + sl.size.toNat + (gt - gf)) = true)
     (hra : inv.gapCutAligned) :
     S.apply inv doc' = .ok doc :=
-  replaceAround_undo S doc doc' f t gf gt sl ins b inv hd hn hsn hwf hins hg h1 hi hst
-    (gapFitsBack_of_applied S doc doc' f t gf gt sl ins b inv hd hn hwf hins hg h1 hi hra) hj ha
+  replaceAround_undo S doc doc' f t gf gt sl ins b inv hd hn hsn hwf
+    (C01.insert_le_of_apply S doc doc' f t gf gt sl ins b h1) hg h1 hi hst
+    (gapFitsBack_of_applied S doc doc' f t gf gt sl ins b inv hd hn hwf hg h1 hi hra) hj ha
 
 /-- **replace-around steps of the shapes `lift`, `wrap` and `set_node_markup` emit**: when the gap lies
     between complete children of the node it sits in (both ends at child boundaries of the same node, not
@@ -1034,7 +1037,7 @@ theorem replaceAround_undo_text_gap :
     hj, ha, hra, ?_, ?_⟩
   · simp only [gapFitsBack, fg_slice08, fg_slice35]
     simp [fg_rem, fg_fits]
-  · exact replaceAround_undo_aligned fgS fgDoc fgDoc' 0 8 3 5 fgSl 1 false fgInv (by decide) hn hsn hwf hins
+  · exact replaceAround_undo_aligned fgS fgDoc fgDoc' 0 8 3 5 fgSl 1 false fgInv (by decide) hn hsn hwf
       (by omega) fg_fwd fg_inv (by intro h; simp at h) hj ha hra
 end TextGap
 
@@ -1959,8 +1962,9 @@ def FamilyInv (S : Schema) (d : Node) : Prop := S.checkNode d = true ∧ fnorm d
     Common to several kinds: `s.undoAligned d'` — the pair-alignment proviso of the inverse.  (That
     `Step.invert` does not raise — oracle `invert-raises` — is no hypothesis: `invert_ok_of_apply`.)
     * replace: the slice is in normal form and a valid payload (`C01.PayloadValid`);
-    * replace-around: slice in normal form and well formed, `insert ≤ slice.size`, ordered gap, valid
-      payload; **`hst`** — when the structure flag is set, the two `content_between` checks of the inverse
+    * replace-around: slice in normal form and well formed, ordered gap, valid payload (`insert ≤ slice.size`
+      stood here until `Slice.insert_at` refused an insertion point outside the slice: it follows from "the step
+      applied", `C01.insert_le_of_apply`); **`hst`** — when the structure flag is set, the two `content_between` checks of the inverse
       on `d'` find no content (the inverse inherits the flag; finding C04-structure-inverse; for a slice
       with only wrapper tokens beside the insertion point it holds: `replaceAround_hst_of_wrappers`,
       Proofs/UndoStructure.lean); **`undoCutAligned`** — one more pair-alignment proviso, in `d`: `Step.invert` does
@@ -1979,7 +1983,7 @@ def FamilyGuard (S : Schema) (s : Step) (d d' : Node) : Prop :=
   | .replace _ _ sl _ =>
     fnorm sl.content = true ∧ C01.PayloadValid S d s ∧ s.undoAligned d'
   | .replaceAround f t gf gt sl ins b =>
-    fnorm sl.content = true ∧ sl.wf = true ∧ (ins : Int) ≤ sl.size ∧ (f ≤ gf ∧ gf ≤ gt ∧ gt ≤ t) ∧
+    fnorm sl.content = true ∧ sl.wf = true ∧ (f ≤ gf ∧ gf ≤ gt ∧ gt ≤ t) ∧
     C01.PayloadValid S d s ∧
     (b = true → contentBetween d' f (f + ins) = some false ∧
       contentBetween d' (f + ins + (gt - gf)) (f + sl.size.toNat + (gt - gf)) = some false) ∧
@@ -2025,13 +2029,13 @@ theorem family_step (S : Schema) (htr : compatTransB S = true) (hts : TextLoop S
     exact ⟨⟨inv, hi, replace_undo_transitive S d d' f t sl b inv htr hv hn hsn h hi ha⟩,
       C01.apply_valid S (.replace f t sl b) d d' hv hp h, apply_norm S (.replace f t sl b) d d' hsn hn h⟩
   | replaceAround f t gf gt sl ins b =>
-    obtain ⟨hsn, hwf, hins, hgo, hp, hst, ⟨inv, hi, hra⟩, ha1, ha2, ha3, ha4⟩ := hg
+    obtain ⟨hsn, hwf, hgo, hp, hst, ⟨inv, hi, hra⟩, ha1, ha2, ha3, ha4⟩ := hg
     have hj : sidesCompatibleAround S d f t gf gt sl ins = true := by
       obtain ⟨gap, inserted, hgap, _, _, hinst, hfr1⟩ := apply_replaceAround_parts S d d' f t gf gt sl ins b h
       obtain ⟨ty, a, m, K, K', rfl, rfl, hr1⟩ := fromReplace_elem S d d' f t inserted hfr1
       have := sidesCompatible_of_trans S (compatTrans_of_B S htr) ty a m K K' f t inserted hn hr1
       simpa [sidesCompatibleAround, hgap, hinst] using this
-    exact ⟨⟨inv, hi, replaceAround_undo_aligned S d d' f t gf gt sl ins b inv hv hn hsn hwf hins hgo h hi
+    exact ⟨⟨inv, hi, replaceAround_undo_aligned S d d' f t gf gt sl ins b inv hv hn hsn hwf hgo h hi
         hst hj ⟨ha1, ha3, ha4, ha2⟩ hra⟩,
       C01.apply_valid S (.replaceAround f t gf gt sl ins b) d d' hv hp h,
       apply_norm S (.replaceAround f t gf gt sl ins b) d d' hsn hn h⟩
@@ -2085,7 +2089,7 @@ theorem family_step (S : Schema) (htr : compatTransB S = true) (hts : TextLoop S
       C01.apply_valid S (.removeNodeMark pos m) d d' hv trivial h, nodeStep_norm S d d' n u pos _ _ hn hu hr⟩
 
 /-- **the inverse of an applied replace-around step restores the document — every guard that can be discharged,
-    discharged**: valid normal-form document, normal-form well-formed slice, `insert ≤ slice.size`, ordered gap, the
+    discharged**: valid normal-form document, normal-form well-formed slice, ordered gap, the
     step applied; schema with transitive `compatible_content` (`compatTransB`: the final replace of the inverse, finding
     C04-nontransitive-join otherwise); no text outside the BMP in the two documents (every pair-alignment proviso,
     `Step.invert` raising included).  Left: `hst`, the structure checks of the inverse when the step carries the
@@ -2094,7 +2098,7 @@ theorem family_step (S : Schema) (htr : compatTransB S = true) (hts : TextLoop S
 theorem replaceAround_undo_bmp (S : Schema) (htr : compatTransB S = true) (d d' : Node) (f t gf gt : Nat)
     (sl : Slice) (ins : Nat) (b : Bool)
     (hv : S.checkNode d = true) (hn : fnorm d.kids = true) (hsn : fnorm sl.content = true)
-    (hwf : sl.wf = true) (hins : (ins : Int) ≤ sl.size) (hgo : f ≤ gf ∧ gf ≤ gt ∧ gt ≤ t)
+    (hwf : sl.wf = true) (hgo : f ≤ gf ∧ gf ≤ gt ∧ gt ≤ t)
     (h : S.apply (.replaceAround f t gf gt sl ins b) d = .ok d')
     (hst : b = true → contentBetween d' f (f + ins) = some false ∧
       contentBetween d' (f + ins + (gt - gf)) (f + sl.size.toNat + (gt - gf)) = some false)
@@ -2108,7 +2112,7 @@ theorem replaceAround_undo_bmp (S : Schema) (htr : compatTransB S = true) (d d' 
     have := sidesCompatible_of_trans S (compatTrans_of_B S htr) ty a m K K' f t inserted hn hr1
     simpa [sidesCompatibleAround, hgap, hinst] using this
   have ha := fun p => alignedAt_of_bmp d'.kids p hb'
-  exact ⟨inv, hi, replaceAround_undo_aligned S d d' f t gf gt sl ins b inv hv hn hsn hwf hins hgo h hi hst hj
+  exact ⟨inv, hi, replaceAround_undo_aligned S d d' f t gf gt sl ins b inv hv hn hsn hwf hgo h hi hst hj
     ⟨ha _, ha _, ha _, ha _⟩ hra⟩
 
 /-- **the history clause for the bundled family**: schema with transitive `compatible_content`
@@ -2289,7 +2293,7 @@ theorem liftGuard_family (S : Schema) (d d' : Node) (a b depth target : Nat) (st
     lift_guard_parts S d d' a b depth target st hv hn hab hb h
   have hp := lift_payload_valid S d d' a b depth target _ hv hab hb h f t gf gt sl ins true rfl
   have hclean := lift_gapClean S d d' a b depth target _ rf rt hn hab hf ht hfb htb hb h f t gf gt sl ins true rfl
-  exact ⟨hsn, hwf, hins, hgo, hp,
+  exact ⟨hsn, hwf, hgo, hp,
     fun _ => replaceAround_hst_of_wrappers S d d' f t gf gt sl ins true hn hsn hwf hins hgo h hshape,
     undoCutAligned_of_fits S d f t gf gt sl ins true
       (gapFitsBack_of_clean_apply S d d' f t gf gt sl ins true hv hn hwf hins hgo h hclean), hal⟩
@@ -2306,7 +2310,7 @@ theorem wrapGuard_family (S : Schema) (d d' : Node) (a b depth : Nat) (ws : List
   obtain ⟨rf, rt, hf, ht, hab, hend, hfb, htb⟩ := hr
   obtain ⟨f, t, gf, gt, sl, ins, rfl, hsn, hwf, hins, hgo, hp, hst, hclean⟩ :=
     wrap_guard_parts S d d' a b depth ws st rf rt hv hn hf ht hab hend hfb htb hl hb h
-  exact ⟨hsn, hwf, hins, hgo, hp, fun _ => hst,
+  exact ⟨hsn, hwf, hgo, hp, fun _ => hst,
     undoCutAligned_of_fits S d f t gf gt sl ins true
       (gapFitsBack_of_clean_apply S d d' f t gf gt sl ins true hv hn hwf hins hgo h hclean), hal⟩
 
@@ -2322,7 +2326,7 @@ theorem retypeGuard_family (S : Schema) (d d' node nn : Node) (pos : Nat)
     (hal : (retypeStep pos (pos + node.size) nn).undoAligned d') :
     FamilyGuard S (retypeStep pos (pos + node.size) nn) d d' := by
   obtain ⟨h1, h2, h3, h4, h5, h6, h7⟩ := retype_guard_parts S d d' node nn pos hv hn hna hnl hnn h
-  exact ⟨h1, h2, h3, h4, h5, fun _ => h6,
+  exact ⟨h1, h2, h4, h5, fun _ => h6,
     undoCutAligned_of_fits S d _ _ _ _ _ 1 true
       (gapFitsBack_of_clean_apply S d d' _ _ _ _ _ 1 true hv hn h2 h3 h4 h h7), hal⟩
 
@@ -2405,7 +2409,7 @@ theorem structGuardB_family (S : Schema) (s : Step) (d d' : Node) (h : structGua
     simp only [structGuardB, structGuardParts, Bool.and_eq_true, decide_eq_true_eq, alignedAtB_eq,
       Bool.or_eq_true, Bool.not_eq_true', beq_iff_eq] at h
     obtain ⟨⟨⟨⟨⟨⟨⟨⟨⟨hsn, hwf⟩, hins⟩, h1⟩, h2⟩, h3⟩, hp⟩, hst⟩, hclean⟩, ⟨⟨ha1, ha2⟩, ha3⟩, ha4⟩ := h
-    refine ⟨hsn, hwf, hins, ⟨h1, h2, h3⟩, ?_, ?_, ?_, ha1, ha2, ha3, ha4⟩
+    refine ⟨hsn, hwf, ⟨h1, h2, h3⟩, ?_, ?_, ?_, ha1, ha2, ha3, ha4⟩
     · intro gap x hg hx
       rw [hg] at hp
       simp only [hx, openValidB_eq] at hp
@@ -3511,7 +3515,7 @@ theorem replace_residual_partial (S : Schema) (hdet : PM.C11.detB S = true) (hfi
       have hshape := hsh _ _ _ _ _ _ _ rfl
       simp only [aroundShape, Bool.and_eq_true, decide_eq_true_eq] at hshape
       obtain ⟨⟨⟨⟨hwf, hins⟩, g1⟩, g2⟩, g3⟩ := hshape
-      exact ⟨hs.1, hwf, hins, ⟨g1, g2, g3⟩, hs.2.1, fun hb' => by simp at hb', undoCutAligned_of_fits S _ _ _ _ _ _ _ _ hs.2.2, hal⟩
+      exact ⟨hs.1, hwf, ⟨g1, g2, g3⟩, hs.2.1, fun hb' => by simp at hb', undoCutAligned_of_fits S _ _ _ _ _ _ _ _ hs.2.2, hal⟩
 
 /-! #### histories mixing structural edits, node-level edits and mark operations -/
 
@@ -3813,7 +3817,7 @@ theorem delete_residual_around (S : Schema) (hdet : PM.C11.detB S = true) (hfill
       simp only [aroundShape, Bool.and_eq_true, decide_eq_true_eq] at hsh
       obtain ⟨⟨⟨⟨hwf, hins⟩, g1⟩, g2⟩, g3⟩ := hsh
       obtain ⟨_, hb, _⟩ := PM.C11.delete_around_is_move S tr.doc f t hv F T G1 G2 sl ins b hr
-      refine ⟨hs.1, hwf, hins, ⟨g1, g2, g3⟩, hpv, ?_, undoCutAligned_of_fits S _ _ _ _ _ _ _ _ hs.2.1, hs.2.2⟩
+      refine ⟨hs.1, hwf, ⟨g1, g2, g3⟩, hpv, ?_, undoCutAligned_of_fits S _ _ _ _ _ _ _ _ hs.2.1, hs.2.2⟩
       intro hbt
       rw [hb] at hbt
       cases hbt
@@ -3882,7 +3886,7 @@ theorem insertInline_residual_around (S : Schema) (hdet : PM.C11.detB S = true) 
       simp only [aroundShape, Bool.and_eq_true, decide_eq_true_eq] at hsh
       obtain ⟨⟨⟨⟨hwf, hins⟩, g1⟩, g2⟩, g3⟩ := hsh
       obtain ⟨hb, _⟩ := PM.C11.fit_around_shape S tr.doc f t sl F T G1 G2 sl0 ins b hr
-      refine ⟨hs.1, hwf, hins, ⟨g1, g2, g3⟩, hs.2.1, ?_, undoCutAligned_of_fits S _ _ _ _ _ _ _ _ hs.2.2.1, hs.2.2.2⟩
+      refine ⟨hs.1, hwf, ⟨g1, g2, g3⟩, hs.2.1, ?_, undoCutAligned_of_fits S _ _ _ _ _ _ _ _ hs.2.2.1, hs.2.2.2⟩
       intro hbt
       rw [hb] at hbt
       cases hbt
@@ -4104,7 +4108,7 @@ theorem fitted_familyGuard (S : Schema) (doc doc' : Node) (f t : Nat)
         simp only [Step.sliceOf, Option.some.injEq] at hs2
         subst hs2
         exact hok.1) _ _ _ _ _ _ _ rfl
-    exact ⟨hok.1, hwf', hins, ⟨g1, g2, g3⟩, hpa, fun hb' => by simp at hb', undoCutAligned_of_fits S _ _ _ _ _ _ _ _ hok.2, hal⟩
+    exact ⟨hok.1, hwf', ⟨g1, g2, g3⟩, hpa, fun hb' => by simp at hb', undoCutAligned_of_fits S _ _ _ _ _ _ _ _ hok.2, hal⟩
 
 /-- the classes of `replace(from, to, slice)` requests covered: a **deletion** (`Slice.empty`); **typing /
     inserting inline leaves** (a closed slice of valid leaf / text nodes); a well-formed slice that passes the
